@@ -25,6 +25,7 @@ PLAN = {
     'units': [{'name': 'proc', 'tu': 'src/processor.cpp', 'roots': ['Teakra::Interpreter::' + n for n in ('AddSub', 'SetAccFlag', 'SaturateAcc', 'SaturateAccNoFlag', 'SatAndSetAccAndFlag', 'SetAccAndFlag', 'ExtendOperandForAlm', 'AlmGeneric', 'Moda', 'GetAcc', 'SetAcc',
                                                               'alm_r6', 'alu', 'add', 'sub', 'cmp', 'cmp_b0_b1', 'cmp_b1_b0', 'or_', 'and_', 'clr', 'clrr', 'moda4', 'moda3')], 'require_functions': FUC,
                'wrappers': FUC, 'wrapper_owners': ['Teakra::Interpreter', 'Teakra::RegisterState'],
+               'force_types': ['AlmOp', 'ModaOp', 'CondValue', 'MulOp', 'RegName', 'Ax', 'Bx', 'Ab', 'Px', 'Imm8', 'Imm16', 'Imm6s', 'Imm8s'],
                'must_fire': ['UNREACHABLE() -> VERIF_ASSERT(0)', 'derived-to-base conversion -> base_k member']}],
     'harness_files': ['harness/c03.c'], 'contract_files': ['contracts/alu_contracts.h'], 'spec_files': ['spec/alu_spec.h', 'spec/regs_spec.h'],
     'native': {'bridges': ['replay/bridge_proc.cpp']},
